@@ -85,6 +85,10 @@ def generate(ctx):
         for k in range(1, kmax + 1):
             c = external_script(['11'], fail='@%d.%d' % (op, k)); c.info['tags'] = c.info['tags'] + ['utils-failure']; c.info['utils_failure'] = True
             cases.append(c)
+    # the directed ownership cases of C06/C07 (flagged booleans, references, NULL entries, self-replacement) under custom hooks
+    for c in coregen.setbool_cases():
+        t = c.line.split(' ', 3)
+        cases.append(Case('hist DEX 0 hooks:11;' + t[3], {'tags': c.info['tags'] + ['under-custom-hooks'], 'phases': ['11']}))
     for c in coregen.print_failure_cases():      # the same under an explicit cJSON_InitHooks({m,f}) (the failing call moves by one)
         t = c.line.split(' '); j, k = t[2][1:].split('.')
         cases.append(Case('hist DEX @%d.%s hooks:11;%s' % (int(j) + 1, k, t[3]), {'tags': c.info['tags'] + ['failure'], 'phases': ['11']}))
